@@ -28,7 +28,7 @@ def ctl(families_q, families_t, dq, dt, rule, required, nontrivial=None, emit_q=
 
 
 PLANS = {
-    "C01": ctl(["reap", "force"], ["reap", "force", "cordon"],
+    "C01": ctl(["reap", "force", "all_reap"], ["reap", "force", "cordon", "all_reap"],
                [D("reap", odd=True, faults=12), D("mix", lag=True, odd=True), D("cycle", n=20, steps=90, groups=1, faults=3, dry=0),
                 # real time (4 s ticks, really elapsing): time the controller remembers by itself ages too
                 D("cycle", n=32, steps=45, procs=1, par=32, groups=1, faults=3, dry=0, realtime="4s")],
@@ -46,37 +46,37 @@ PLANS = {
                "cases: model states + seeded histories with a twin scan (same world, fresh controller) at every scan; non-trivial: a scan inside a cool-down "
                "(incl. below-minimum and removable nodes), or a scan after the cool-down in which the group is acted on again",
                ["C02:scan-in-cooldown", "C02:cooldown-below-min", "C02:cooldown-removable", "C02:acts-after-cooldown", "C02:twin-acts"]),
-    "C03": ctl(["updown", "auto"], ["updown", "auto", "lock"],
+    "C03": ctl(["updown", "auto", "all_scale"], ["updown", "auto", "lock", "all_scale"],
                [D("down", faults=10), D("mix")],
                [D("down", n=60, steps=100, procs=8, faults=10), D("mix", n=60, steps=100, procs=8)],
                "non-trivial: a scan that tainted nodes (in particular down to exactly the minimum, or under auto-discovered bounds) or ran the below-minimum recovery",
                ["C03:tainted", "C03:tainted-down-to-min", "C03:tainted-auto", "C03:recovery"]),
-    "C04": ctl(["updown", "auto"], ["updown", "auto"],
+    "C04": ctl(["updown", "auto", "asgedit", "all_scale"], ["updown", "auto", "asgedit", "all_scale"],
                [D("up", faults=8), D("mix")],
                [D("up", n=60, steps=100, procs=8, faults=8), D("mix", n=60, steps=100, procs=8)],
                "non-trivial: a scan that asked the cloud for capacity (with max_nodes below / above the cloud maximum, landing on the bound or not)",
                ["C04:request", "C04:request-on-bound", "C04:max_nodes-below-cloud-max", "C04:max_nodes-above-cloud-max"]),
-    "C06": ctl(["updown"], ["updown", "auto"],
+    "C06": ctl(["updown", "all_scale"], ["updown", "auto", "all_scale"],
                [D("down", faults=0, dry=0), D("up", faults=0, dry=0), D("mix", faults=0, dry=0)],
                [D("down", n=60, steps=100, procs=6, faults=0, dry=0), D("up", n=60, steps=100, procs=6, faults=0, dry=0), D("mix", n=60, steps=100, procs=6, faults=0, dry=0)],
                "non-trivial: a fault-free scan of an unlocked, in-bounds group, classified by the exact band of max(cpu%, mem%) (incl. exactly on a threshold) and by the starve / max-age triggers",
                ["C06:band-fast", "C06:band-slow", "C06:band-none", "C06:band-up", "C06:on-threshold", "C06:starve", "C06:max-age"]),
-    "C07": ctl(["updown"], ["updown", "lock"],
+    "C07": ctl(["updown", "forceup", "all_scale"], ["updown", "forceup", "lock", "all_scale"],
                [D("up", faults=25), D("mix", faults=20)],
                [D("up", n=60, steps=100, procs=8, faults=25), D("mix", n=60, steps=100, procs=8, faults=20)],
                "non-trivial: a scale-up scan (band decision or below-minimum recovery), esp. with tainted nodes reused, capacity bought after reuse or after a same-scan removal, creation-time ties",
                ["C07:scale-up", "C07:reused", "C07:reused-and-bought", "C07:removed-then-bought", "C07:ties"]),
-    "C08": ctl(["updown"], ["updown"],
+    "C08": ctl(["updown", "all_scale"], ["updown", "all_scale"],
                [D("down", faults=30, nodes=8), D("mix", faults=20)],
                [D("down", n=60, steps=100, procs=8, faults=30, nodes=8), D("mix", n=60, steps=100, procs=8, faults=20)],
                "non-trivial: a scan that tainted nodes, esp. leaving some untainted, with creation-time ties, with a failed write skipped",
                ["C08:tainted", "C08:tainted-some-left", "C08:ties", "C08:failed-write-skipped"]),
-    "C09": ctl(["cordon"], ["cordon", "reap"],
+    "C09": ctl(["cordon", "all_reap"], ["cordon", "reap", "all_reap"],
                [D("reap", faults=8), D("mix")],
                [D("reap", n=60, steps=100, procs=8, faults=8), D("mix", n=60, steps=100, procs=8)],
                "non-trivial: a scan of a group with a cordoned node (fresh, tainted, grace-expired, force-tainted), incl. the capacity gauge read-back",
                ["C09:cordoned-present", "C09:cordoned-tainted", "C09:cordoned-expired", "C09:cordoned-force", "C09:capacity-checked"]),
-    "C10": ctl(["annot"], ["annot", "force"],
+    "C10": ctl(["annot"], ["annot", "force", "all_reap"],
                [D("reap", faults=5), D("mix")],
                [D("reap", n=60, steps=100, procs=8, faults=5), D("mix", n=60, steps=100, procs=8)],
                "non-trivial: a scan of a group with a protected node: kept although expired, others removed next to it, protected node tainted / untainted",
@@ -200,4 +200,4 @@ PLANS["C12"] = ctl(["multi"], ["multi"],
                    ["C12:multi-group", "C12:failure-before-last-group", "C12:default-group", "C12:twin-compared", "C12:twin-other-group-acts"])
 PLANS["C12"]["emit_rate"] = dict(quick=3, thorough=3)
 PLANS["C12"]["iso_drives"] = dict(quick=[D("mix", n=14, steps=80, procs=4)], thorough=[D("mix", n=60, steps=100, procs=8), D("reap", n=40, steps=100, procs=8)])
-PLANS["C11"]["families"] = dict(quick=["dry", "multidry"], thorough=["dry", "multidry"])
+PLANS["C11"]["families"] = dict(quick=["dry", "multidry", "all_dry"], thorough=["dry", "multidry", "all_dry"])
